@@ -76,6 +76,15 @@ def cases(tier, seed):
                             cfg=S.cfg_for(setup, agg, "zero" if d == "10" else "drop", 100, office="H"),
                         )
                     )
+    # feed rows that carry no results yet (NaN): under 'drop' the unit leaves the baseline join and is passed through as
+    # unexpected, under 'zero' it counts as 0 votes at 0 percent; either way it must appear exactly once
+    for loc in ("pop0", "newcounty", "newstate"):
+        for setup in ("np1", "np2", "ga1"):
+            for policy in ("drop", "zero"):
+                for agg in ("all", "pc"):
+                    for second in (None, ["nonrep_partial", "pop1"], ["unexpected", "pop0"]):
+                        probes = [["nan_result", loc]] + ([second] if second else [])
+                        out.append(dict(seed=seed, bg=S.bg_for(setup), probes=probes, cfg=S.cfg_for(setup, agg, policy, 100)))
     # outlier models enabled (the default of the public API): 24 reporting units, one of them an outlier for both the
     # turnout-factor and the margin model, one for the margin model only
     for setup in ("bs1", "np1", "ga1"):
@@ -122,6 +131,7 @@ def check_tables(units, cfg, tables, V, cov):
     def viol(kind, msg):
         V.append({"sig": f"C01:{kind}:{pm}", "msg": msg})
 
+    byid_units = {u["id"]: u for u in units}
     # (i)/(ii) unit table
     if "unit" in cfg["aggregates"]:
         rows = E.tab_rows(tables["unit_data"])
@@ -142,6 +152,9 @@ def check_tables(units, cfg, tables, V, cov):
             if r["reporting"] != cats[uid]["reporting"]:
                 viol("unit-reporting-flag", f"unit {uid}: reporting={r['reporting']} expected {cats[uid]['reporting']}")
             for e in cfg["estimands"]:
+                if byid_units[uid].get("r_nan") and r[f"results_{e}"] in ("NaN", 0, 0.0):
+                    cov["units_without_results"] += 1  # 'no count yet' may be shown as missing or as 0
+                    continue
                 if r[f"results_{e}"] != R.result_value(cats[uid]["eff"], e):
                     viol("unit-results", f"unit {uid}: results_{e}={r[f'results_{e}']} expected {R.result_value(cats[uid]['eff'], e)}")
     ncat = len({c["category"] for c in cats.values()})
@@ -214,4 +227,4 @@ def evaluate(case):
     }
 
 
-REQUIRED_COUNTERS = {"runs_completed": 500, "groups_only_passthrough": 10, "groups_only_nonreporting": 10, "scenarios_with_ge3_categories": 10}
+REQUIRED_COUNTERS = {"runs_completed": 500, "groups_only_passthrough": 10, "groups_only_nonreporting": 10, "scenarios_with_ge3_categories": 10, "units_without_results": 50, "outlier_flagged_units": 20}
